@@ -59,6 +59,8 @@ func (r *closingReporter) ReportBytesWritten(uint64) {
 	}
 }
 
+var lastAttemptSize int // size of the file written by the most recent successful attempt
+
 var cancelStats struct {
 	merges, errClosed, completed int64
 	deciles                      [10]int64 // closure points (k/W) that produced ErrClosed
@@ -148,6 +150,7 @@ func runCancelCase(c cancelCase) *Violation {
 			return false, violation(prop, "cancel/stray-file", "%s: Merge returned nil and the destination directory holds %q", desc, left)
 		}
 		data, _ := os.ReadFile(path)
+		lastAttemptSize = len(data)
 		if uint64(len(data)) != size {
 			return false, violation(prop, "cancel/success-size", "%s: Merge reported %d bytes, file has %d", desc, size, len(data))
 		}
@@ -173,6 +176,7 @@ func runCancelCase(c cancelCase) *Violation {
 		return v
 	}
 	w := rep0.calls
+	size0 := lastAttemptSize
 	// closed before the call
 	pre := make(chan struct{})
 	close(pre)
@@ -248,6 +252,33 @@ func runCancelCase(c cancelCase) *Violation {
 			}
 		}
 		fakeOnOp(nil)
+	}
+	// closure combined with a write failure that is reported only by the final sync (FIFO destination,
+	// outputs that fit a pipe buffer): whichever error is reported, nothing stays at the path
+	if size0 <= 32<<10 {
+		for _, k := range []int{w, w - 1, w - 2, w / 2, 1, 0} {
+			if k < 0 {
+				continue
+			}
+			p3, ok := syncFaultPath("c18s")
+			if !ok {
+				break
+			}
+			rep := &closingReporter{k: k, ch: make(chan struct{})}
+			err := drive.Safe(func() error {
+				_, _, e := drive.Merge(segs, drops, p3, root.ChunkMode, rep.ch, rep)
+				return e
+			})
+			_, serr := os.Lstat(p3)
+			os.Remove(p3)
+			cancelStats.merges++
+			if err == nil {
+				return violation(prop, "cancel/sync-fault-swallowed", "closed at report %d of %d with a destination whose sync fails: Merge returned nil", k, w)
+			}
+			if serr == nil {
+				return violation(prop, "cancel/file-left-behind", "closed at report %d of %d with a destination whose sync fails: Merge returned %v but left something at the path", k, w, err)
+			}
+		}
 	}
 	// a chunk mode the format does not know (reachable through the exported default): whatever
 	// the merge reports, an error never comes with a file, and a channel closed before the call
